@@ -707,9 +707,44 @@ def m_skip(c):
         c.ret(Iter("slice", usize(max(rem.lo - n.hi, 0), max(rem.hi - n.lo, 0)), it.elem, extra=it.extra))
 
 
+def _refine_by_predicate(c, it, clo):
+    """elements that can pass predicate `clo` (closure taking &Item): joined over the closure's true exits"""
+    elem = it.elem if it.elem is not None and not it.elem.is_bot() else None
+    if elem is None or not isinstance(clo, Closure):
+        return None
+    s = c.st.copy()
+    cell = new_tmp(c, s, elem, "predelem")
+    inner = Ref(cell, ()) if it.extra == "val" else None
+    if inner is None:
+        cell2 = new_tmp(c, s, Ref(cell, ()), "predref")
+        arg = Ref(cell2, ())
+    else:
+        arg = inner
+    r = c.I.call_closure(c, clo, [(arg, None)], st=s)
+    if r is None:
+        return None
+    out = BOT
+    for (s2, rv, rloc, nf) in r:
+        try:
+            if isinstance(rv, Int):
+                if rv.is_const() and rv.lo == 0:
+                    continue
+                c.I.assume_var(s2, rloc, 1, True)
+            out = join_val(out, s2.cells.get(cell, elem))
+        except Infeasible:
+            continue
+    return None if out.is_bot() else out
+
+
 @model("std::iter::Iterator::skip_while", "std::iter::Iterator::filter", "std::iter::Iterator::take_while")
 def m_shrinking_adaptor(c):
     it, loc = c.arg(0)
+    if c.name.endswith("filter") and isinstance(it, Iter) and it.ikind == "slice":
+        clo, _ = c.arg(1)
+        refined = _refine_by_predicate(c, it, clo)
+        rem = it.remaining if isinstance(it.remaining, Int) else usize()
+        c.ret(Iter("slice", usize(0, rem.hi), refined if refined is not None else it.elem, extra=it.extra))
+        return
     if isinstance(it, Ref):
         it2, _ = c.deref(it)
         if isinstance(it2, Iter):
